@@ -700,91 +700,7 @@ func rulesC05(c *Ctx) {
 		}
 	})
 
-	c.Rule("R-C05-13", "no channel field is closed twice (Close is idempotent and concurrent closes never panic): every close(x.ch) is inside a sync.Once, or on the not-yet edge of a boolean that the same branch sets, or paired with setting the channel field to nil behind a non-nil test — under a lock in the last two cases", func() {
-		onceDo := c.Std("sync", "Once", "Do")
-		n := 0
-		for _, rel := range []string{pJ, pM} {
-			for _, f := range c.funcsWithLits(rel) {
-				g := f.Graph()
-				for _, call := range f.AllCalls(f.Body, false) {
-					if f.BuiltinName(call) != "close" || len(call.Args) != 1 {
-						continue
-					}
-					chF, isField := f.ObjOf(call.Args[0]).(*types.Var)
-					if !isField || !chF.IsField() {
-						continue // local channels are owned by the function that made them
-					}
-					n++
-					key := "close-once:" + f.Name() + ":" + f.FieldPath(call.Args[0])
-					if why, ok := map[string]string{
-						"close-once:(*Connection).updateInFlight:Connection.done": "decided by R-C05-1: the close sits behind the consumption of the closer (set to nil in the same locked section), which happens once",
-						"close-once:(*AsyncCall).retire:AsyncCall.ready":          "decided by R-C01-2/-6: retire is reached only where the call's table entry is removed, under the state lock (single completion typestate)",
-					}[key]; ok {
-						c.Ok(key, f, call, "%s", why)
-						continue
-					}
-					// (a) inside a literal passed to (*sync.Once).Do
-					inOnce := false
-					for p := f; p != nil && p.Lit != nil; p = p.Parent {
-						if pc, ok := p.Parent.ParentOf(p.Lit).(*ast.CallExpr); ok && p.Parent.IsCallTo(pc, onceDo) {
-							inOnce = true
-						}
-					}
-					if inOnce {
-						c.Ok(key, f, call, "inside a sync.Once")
-						continue
-					}
-					cv := g.VertexOf(call)
-					guards := g.GuardsAt(cv)
-					held := f.heldLocal(call)
-					locked := len(held) > 0 || len(c.lockEnv().heldAt(f, call)) > 0
-					// (b) !flag … flag = true
-					okFlag := false
-					for _, a := range guards {
-						fl, isF := f.ObjOf(a.E).(*types.Var)
-						if !isF || !fl.IsField() || a.Val {
-							continue
-						}
-						for _, t := range g.edgesWhere(func(b Atom) bool { return !b.Val && f.ObjOf(b.E) == types.Object(fl) }) {
-							if g.allPathsPass(t, func(v int) bool {
-								for _, w := range Writes(g.Node(v), false) {
-									if f.ObjOf(w.LHS) == types.Object(fl) && w.RHS != nil && exprStr(w.RHS) == "true" {
-										return true
-									}
-								}
-								return false
-							}) {
-								okFlag = true
-							}
-						}
-					}
-					// (c) ch != nil … ch = nil
-					okNil := false
-					if hasAtom(guards, func(a Atom) bool {
-						return AtomSaysNil(a, false, func(e ast.Expr) bool { return f.ObjOf(e) == types.Object(chF) })
-					}) || f.Lit != nil {
-						// the nil-ing may sit in the same (deferred) literal
-						scope := f
-						sg := scope.Graph()
-						for _, w := range Writes(scope.Body, false) {
-							if scope.ObjOf(w.LHS) == types.Object(chF) && w.RHS != nil && isNilIdent(w.RHS) && (sg.ReachableFrom(sg.VertexOf(call))[sg.VertexOf(w.Stmt)]) {
-								okNil = true
-							}
-						}
-					}
-					switch {
-					case okFlag && locked:
-						c.Ok(key, f, call, "guarded by a not-yet flag that the branch sets, under a lock")
-					case okNil:
-						c.Ok(key, f, call, "paired with setting the field to nil (the non-nil test is made by the caller or the guard)")
-					default:
-						c.Undecided(key, f, call, "no once-idiom recognised for this close (guards: %s; lock held: %v)", atomsString(guards), locked)
-					}
-				}
-			}
-		}
-		c.Pin("closes of channel fields", n, 8)
-	})
+	c.Rule("R-C05-13", "no channel field is closed twice (Close is idempotent and concurrent closes never panic): every close(x.ch) is inside a sync.Once, or on the not-yet edge of a boolean that the same branch sets, or paired with setting the channel field to nil behind a non-nil test — under a lock in the last two cases", func() { closeOnceRule(c) })
 
 	c.Rule("R-C05-9", "no function of the connection, session and transport layers returns with a mutex it acquired still held: every path from a Lock to an exit passes the matching Unlock or a deferred Unlock (hand-offs are a closed table)", func() {
 		// functions that return with a lock held on purpose, confirmed by reading: "<function>:<lock class>" → reason
@@ -1138,4 +1054,94 @@ func isWakeChan(f *Func, ch ast.Expr) bool {
 		}
 	}
 	return false
+}
+
+// closeOnceRule is R-C05-13, shared with C11 as R-C11-7 (a transport whose done channel is not closed on some path of
+// Close leaves its session registered and its requests hanging).
+func closeOnceRule(c *Ctx) {
+	onceDo := c.Std("sync", "Once", "Do")
+	n := 0
+	for _, rel := range []string{pJ, pM} {
+		for _, f := range c.funcsWithLits(rel) {
+			g := f.Graph()
+			for _, call := range f.AllCalls(f.Body, false) {
+				if f.BuiltinName(call) != "close" || len(call.Args) != 1 {
+					continue
+				}
+				chF, isField := f.ObjOf(call.Args[0]).(*types.Var)
+				if !isField || !chF.IsField() {
+					continue // local channels are owned by the function that made them
+				}
+				n++
+				key := "close-once:" + f.Name() + ":" + f.FieldPath(call.Args[0])
+				if why, ok := map[string]string{
+					"close-once:(*Connection).updateInFlight:Connection.done": "decided by R-C05-1: the close sits behind the consumption of the closer (set to nil in the same locked section), which happens once",
+					"close-once:(*AsyncCall).retire:AsyncCall.ready":          "decided by R-C01-2/-6: retire is reached only where the call's table entry is removed, under the state lock (single completion typestate)",
+				}[key]; ok {
+					c.Ok(key, f, call, "%s", why)
+					continue
+				}
+				// (a) inside a literal passed to (*sync.Once).Do
+				inOnce := false
+				for p := f; p != nil && p.Lit != nil; p = p.Parent {
+					if pc, ok := p.Parent.ParentOf(p.Lit).(*ast.CallExpr); ok && p.Parent.IsCallTo(pc, onceDo) {
+						inOnce = true
+					}
+				}
+				if inOnce {
+					c.Ok(key, f, call, "inside a sync.Once")
+					continue
+				}
+				cv := g.VertexOf(call)
+				guards := g.GuardsAt(cv)
+				held := f.heldLocal(call)
+				locked := len(held) > 0 || len(c.lockEnv().heldAt(f, call)) > 0
+				// (b) !flag … flag = true
+				okFlag := false
+				for _, a := range guards {
+					fl, isF := f.ObjOf(a.E).(*types.Var)
+					if !isF || !fl.IsField() || a.Val {
+						continue
+					}
+					for _, t := range g.edgesWhere(func(b Atom) bool { return !b.Val && f.ObjOf(b.E) == types.Object(fl) }) {
+						if g.allPathsPass(t, func(v int) bool {
+							for _, w := range Writes(g.Node(v), false) {
+								if f.ObjOf(w.LHS) == types.Object(fl) && w.RHS != nil && exprStr(w.RHS) == "true" {
+									return true
+								}
+							}
+							return false
+						}) && g.allPathsPass(t, func(v int) bool { return v == cv }) {
+							// (every path of the not-yet edge sets the flag AND reaches this close: a path that sets the flag but
+							// leaves before closing — an error return in between — makes the close impossible for ever after)
+							okFlag = true
+						}
+					}
+				}
+				// (c) ch != nil … ch = nil
+				okNil := false
+				if hasAtom(guards, func(a Atom) bool {
+					return AtomSaysNil(a, false, func(e ast.Expr) bool { return f.ObjOf(e) == types.Object(chF) })
+				}) || f.Lit != nil {
+					// the nil-ing may sit in the same (deferred) literal
+					scope := f
+					sg := scope.Graph()
+					for _, w := range Writes(scope.Body, false) {
+						if scope.ObjOf(w.LHS) == types.Object(chF) && w.RHS != nil && isNilIdent(w.RHS) && (sg.ReachableFrom(sg.VertexOf(call))[sg.VertexOf(w.Stmt)]) {
+							okNil = true
+						}
+					}
+				}
+				switch {
+				case okFlag && locked:
+					c.Ok(key, f, call, "guarded by a not-yet flag that the branch sets, under a lock")
+				case okNil:
+					c.Ok(key, f, call, "paired with setting the field to nil (the non-nil test is made by the caller or the guard)")
+				default:
+					c.Undecided(key, f, call, "no once-idiom recognised for this close (guards: %s; lock held: %v)", atomsString(guards), locked)
+				}
+			}
+		}
+	}
+	c.Pin("closes of channel fields", n, 8)
 }
